@@ -1,7 +1,8 @@
 #!/venv/bin/python
 """Correspondence harness for Spec/Standards.lean (property C07).
 
-The declarative Lean predicates `Std_M` (with the canonicalisation `canon_M`) are executable.  This script
+The declarative Lean predicates `Std_M` (with the canonicalisation `canon_M`) are executable (IBAN: `Std_iban` with
+the registry table `ibanRegistry` read off the embedded iban.dat, i.e. the `check_country=False` rule).  This script
 evaluates them through `Driver/Standards.lean` and compares the verdicts (canonical form or None) with the
 independent Python transcription of the same published rules, tools/search/c07_reference.py, on
 
@@ -39,7 +40,7 @@ FORMATS = {
     'imo': 'stdnum.imo', 'casrn': 'stdnum.casrn', 'imei': 'stdnum.imei', 'isin': 'stdnum.isin',
     'cusip': 'stdnum.cusip', 'sedol': 'stdnum.gb.sedol', 'figi': 'stdnum.figi', 'lei': 'stdnum.lei',
     'iso11649': 'stdnum.iso11649', 'isni': 'stdnum.isni', 'grid': 'stdnum.grid', 'bic': 'stdnum.bic',
-    'isrc': 'stdnum.isrc',
+    'isrc': 'stdnum.isrc', 'iban': 'stdnum.iban',
 }
 
 D = '0123456789'
@@ -47,13 +48,13 @@ U = 'ABCDEFGHIJKLMNOPQRSTUVWXYZ'
 ALPHABETS = {
     'issn': D + 'X', 'ean': D, 'isbn': D + 'X', 'ismn': D + 'M', 'imo': D + 'IMO', 'casrn': D + '-',
     'imei': D, 'isin': D + U, 'cusip': D + U + '*@#', 'sedol': D + U, 'figi': D + U, 'lei': D + U,
-    'iso11649': D + U, 'isni': D + 'X', 'grid': D + U, 'bic': D + U, 'isrc': D + U,
+    'iso11649': D + U, 'isni': D + 'X', 'grid': D + U, 'bic': D + U, 'isrc': D + U, 'iban': D + U,
 }
 LENGTHS = {
     'issn': (8,), 'ean': (8, 12, 13, 14), 'isbn': (9, 10, 13), 'ismn': (10, 13), 'imo': (7, 10),
     'casrn': (7, 8, 9, 10, 11, 12), 'imei': (14, 15, 16), 'isin': (12,), 'cusip': (9,), 'sedol': (7,),
     'figi': (12,), 'lei': (20,), 'iso11649': (5, 8, 12, 25), 'isni': (16,), 'grid': (18, 23), 'bic': (8, 11),
-    'isrc': (12,),
+    'isrc': (12,), 'iban': (15, 16, 18, 20, 22, 24, 27, 28, 29, 31),
 }
 HOSTILE = ' \t\n\x1c-+_.,/:xX*@#aAzZ²①é٣１൩– \x00\x7f`'
 
@@ -96,6 +97,20 @@ def prefixed(fmt, rnd, w):
         return 'A1' + w[2:]
     if fmt == 'figi':
         return w[:2] + 'G' + w[3:]
+    if fmt == 'iban':
+        # a registered country, its own length and (often) field classes and the right check digits: random words
+        # would otherwise never get past the country / length gates of either transcription
+        reg = c07_reference.iban_registry()
+        cc = rnd.choice(sorted(reg))
+        if rnd.random() < 0.3:
+            return cc + w[2:]
+        cls = {'n': D, 'a': U, 'c': D + U}
+        bban = ''.join(rnd.choice(cls[k] if rnd.random() < 0.97 else D + U) for n, k in reg[cc] for _ in range(n))
+        if rnd.random() < 0.6:
+            kk = '%02d' % (98 - int(''.join(str(int(c, 36)) for c in bban + cc + '00')) % 97)
+        else:
+            kk = ''.join(rnd.choice(D + U if rnd.random() < 0.3 else D) for _ in range(2))
+        return cc + kk + bban
     if fmt in ('isin', 'isrc'):
         return rnd.choice(('US', 'GB', 'XS', 'QM', 'EU', 'ZZ')) + w[2:]
     if fmt == 'casrn' and len(w) >= 7 and rnd.random() < 0.7:
